@@ -113,71 +113,86 @@ def term(parent, ttype, text, line=1, column=0):
     n = TerminalNodeImpl(tok(ttype, text, line, column))
     n.parentCtx = parent
     parent.addChild(n)
+    if getattr(parent, "start", None) is None:       # like the real parser: start/stop = first/last token of the rule
+        parent.start = n.symbol
+    parent.stop = n.symbol
     return n
 
 
-def single_arg(parent, ttype, text):
+def _adopt(parent, child):
+    parent.addChild(child)
+    if getattr(parent, "start", None) is None:
+        parent.start = child.start
+    parent.stop = child.stop
+
+
+def single_arg(parent, ttype, text, line=1):
     c = P.Single_argumentContext(None, parent)
-    term(c, ttype, text)
-    parent.addChild(c)
+    term(c, ttype, text, line)
+    _adopt(parent, c)
     return c
 
 
-def compound_arg(parent, args):
+def compound_arg(parent, args, line=1):
     c = P.Compound_argumentContext(None, parent)
-    term(c, P.T__0, "(")
-    add_args(c, args)
-    term(c, P.T__1, ")")
-    parent.addChild(c)
+    term(c, P.T__0, "(", line)
+    add_args(c, args, line)
+    term(c, P.T__1, ")", line)
+    _adopt(parent, c)
     return c
 
 
-def add_args(parent, args):
+def add_args(parent, args, line=1):
     for a in args:
         if isinstance(a, list):
-            compound_arg(parent, a)
+            compound_arg(parent, a, line)
         else:
-            single_arg(parent, a[0], a[1])
+            single_arg(parent, a[0], a[1], line)
 
 
 def command(parent, name, args, line=1, column=0):
     c = P.Command_invocationContext(None, parent)
-    c.start = tok(P.Identifier, name, line, column)
     term(c, P.Identifier, name, line, column)
-    term(c, P.T__0, "(")
-    add_args(c, args)
-    term(c, P.T__1, ")")
-    parent.addChild(c)
+    term(c, P.T__0, "(", line)
+    add_args(c, args, line)
+    term(c, P.T__1, ")", line)
+    _adopt(parent, c)
     return c
 
 
-def doccomment(parent, text):
+def doccomment(parent, text, line=1):
     c = P.Bracket_doccommentContext(None, parent)
-    term(c, P.Docstring, text)
-    parent.addChild(c)
+    term(c, P.Docstring, text, line)
+    _adopt(parent, c)
     return c
 
 
-def file_ctx(items, module_doc=None, line0=1, column=0):
-    """items: list of (doc_text_or_None, name, args) ; name None => dangling doccomment; args: (type, text) or nested list"""
+def file_ctx(items, module_doc=None, line0=1, column=0, lines=None):
+    """items: list of (doc_text_or_None, name, args); name None => dangling doccomment; args: (type, text) or nested list.
+    lines: optional start line per item (of its doccomment if it has one, else of the command); the command of a documented
+    item starts 3 lines below its doccomment."""
     root = P.Cmake_fileContext(None)
     if module_doc is not None:
         m = P.Documented_moduleContext(None, root)
         term(m, P.Module_docstring, module_doc)
-        root.addChild(m)
+        _adopt(root, m)
     line = line0
+    i = 0
     for (doc, name, args) in items:
+        if lines is not None:
+            line = lines[i]
         if name is None:
-            doccomment(root, doc)
+            doccomment(root, doc, line)
         elif doc is not None:
             dc = P.Documented_commandContext(None, root)
-            doccomment(dc, doc)
-            command(dc, name, args, line, column)
-            root.addChild(dc)
+            doccomment(dc, doc, line)
+            command(dc, name, args, line + 3, column)
+            _adopt(root, dc)
         else:
             command(root, name, args, line, column)
         line = line + 1
-    term(root, -1, "<EOF>")
+        i += 1
+    term(root, -1, "<EOF>", line)
     return root
 
 
